@@ -519,7 +519,9 @@ func (n NBTField) ReadFrom(r io.Reader) (int64, error) {
 	}
 	_, err := dec.Decode(n.V)
 	if err != nil {
-		if !errors.Is(err, nbt.ErrEND) {
+		// Only a lone TAG_End (the whole field is one byte) means "no value";
+		// a TAG_End met deeper in the document is a malformed document.
+		if !errors.Is(err, nbt.ErrEND) || cr.n != 1 {
 			return cr.n, err
 		}
 		err = nil
